@@ -26,7 +26,7 @@
 #include <deque>
 #include <memory>
 
-namespace {
+namespace c21_lltiming {
 
     namespace ll = bluetoe::link_layer;
     using u8     = std::uint8_t;
@@ -168,6 +168,8 @@ namespace {
         virtual void             try_event_cancelation()                  = 0;
         virtual unsigned         counter()                                = 0;
         virtual bool             pending_tx()                             = 0;
+        virtual std::size_t      rx_head()                                = 0;
+        virtual std::size_t      tx_room()                                = 0;
         virtual ll::read_buffer  alloc_rx()                               = 0;
         virtual ll::write_buffer received( ll::read_buffer )              = 0;
         virtual ll::write_buffer next_transmit()                          = 0;
@@ -202,6 +204,8 @@ namespace {
         void             try_event_cancelation() override { d.try_event_cancelation(); }
         unsigned         counter() override { return d.connection_event_counter(); }
         bool             pending_tx() override { return d.pending_outgoing_data_available(); }
+        std::size_t      rx_head() override { return d.next_received().size; }
+        std::size_t      tx_room() override { return d.allocate_transmit_buffer( 29 ).size; }
         ll::read_buffer  alloc_rx() override { return d.allocate_receive_buffer(); }
         ll::write_buffer received( ll::read_buffer b ) override { return d.received( b ); }
         ll::write_buffer next_transmit() override { return d.next_transmit(); }
@@ -733,9 +737,12 @@ namespace {
         i64      anchor_abs = -1, anchor_T = 0;
         bool     sn = false, nesn = false;
         std::deque< TxPdu > txq;
+        bool     have_inflight = false;  // the PDU sent last is not acknowledged yet and has to be sent again
+        TxPdu    inflight{ {}, 0, -1 };
         struct Outstanding { int req; i64 since; };
         std::deque< Outstanding > outstanding;
         i64      exchanges = 0;
+        bool     progress_possible = true;
 
         // peripheral tracking
         i64      prev_abs = -1;          // event handled last (received or missed)
@@ -764,6 +771,14 @@ namespace {
         }
 
         std::string sig() const { return pullback_after_apply ? "pullback-after-apply=1" : ""; }
+
+        const bool trace = verif::opt_int( "trace", 0 ) != 0;
+        template < class... Ts >
+        void tr( const Ts&... ts ) const
+        {
+            if ( trace )
+                std::cerr << verif::cat( ts... ) << "\n";
+        }
 
 #define LL_CHECK( cond, oracle, ... ) V_CHECK_SIG( cond, oracle, sig(), __VA_ARGS__ )
 
@@ -937,7 +952,9 @@ namespace {
             if ( h == AFTER_MISS && ( seen.attempt_timeout || ( seen.closed && seen.reason == 0x08 ) ) )
             {
                 if ( anchor_abs < 0 )
-                    LL_CHECK( missed_abs >= 5, "supervision.early", "the connection attempt is given up after ", missed_abs + 1, " missed windows (6 are required)" );
+                    // (bluetoe also applies the supervision timeout of the connect request before the first packet; the statement allows that)
+                    LL_CHECK( missed_abs >= 5 || window_end >= params_at( missed_abs ).timeout, "supervision.early", "the connection attempt is given up after ", missed_abs + 1, " missed windows, ", window_end,
+                        " us after the connect request (6 windows or the supervision timeout of ", params_at( missed_abs ).timeout, " us are required)" );
                 else
                 {
                     i64 to = params_at( missed_abs ).timeout;
@@ -1038,7 +1055,7 @@ namespace {
             return p;
         }
 
-        bool can_start_procedure() const { return proc.kind == PR_NONE && txq.empty() && outstanding.empty() && !dev->pending_tx() && established; }
+        bool can_start_procedure() const { return proc.kind == PR_NONE && txq.empty() && !have_inflight && outstanding.empty() && !dev->pending_tx() && established; }
 
         void enqueue( const Op& o, int op_index )
         {
@@ -1055,6 +1072,7 @@ namespace {
                 bool busy = false;
                 for ( auto& x : outstanding ) busy = busy || x.req == 2;
                 for ( auto& x : txq ) busy = busy || x.req == 2;
+                busy = busy || ( have_inflight && inflight.req == 2 );
                 if ( busy )
                     break;
                 if ( o.pdu == P_WRREQ ) txq.push_back( { att( { 0x12, 0x03, 0x00 }, std::min( 20, std::max( 0, o.len ) ) ), 2, -1 } );
@@ -1076,7 +1094,7 @@ namespace {
         }
 
         // builds the PDU of a procedure when the peripheral is about to receive it for the first time
-        void finalise_procedure( TxPdu& t )
+        bool finalise_procedure( TxPdu& t )
         {
             const Op& o = c.ops[ static_cast< std::size_t >( t.proc_op ) ];
             const int delta = static_cast< std::int16_t >( o.delta );
@@ -1110,9 +1128,17 @@ namespace {
                 t.bytes   = { 0x03, 5, 0x18, proc.nrx, proc.ntx, u8( inst16 ), u8( inst16 >> 8 ) };
             }
             t.proc_op = -1;
+            if ( proc.kind == PR_PHY && proc.nrx == 0 && proc.ntx == 0 )
+            {
+                // no PHY changes: the instant has no meaning (Vol 6 Part B 5.1.10), nothing is pending
+                proc.kind = PR_NONE;
+                rep.label( "phy-update-without-change" );
+                return false;
+            }
             if ( delta >= -2 && delta <= 2 ) f_proc_near = true;
             if ( proc.grey ) f_grey = true;
             rep.label( verif::cat( "instant-delta=", delta <= -2 ? "past" : delta == 32767 ? "32767" : delta > 2 ? ">2" : std::to_string( delta ) ) );
+            return true;
         }
 
         void handle_reply( const ll::write_buffer& t )
@@ -1122,12 +1148,9 @@ namespace {
             if ( bool( h & 4 ) != sn )
             {
                 sn = !sn;
-                if ( !txq.empty() )
-                {
-                    if ( txq.front().req )
-                        outstanding.push_back( { txq.front().req, -1 } );
-                    txq.pop_front();
-                }
+                if ( have_inflight && inflight.req )
+                    outstanding.push_back( { inflight.req, -1 } );
+                have_inflight = false;
             }
             // new data from the peripheral
             if ( bool( h & 8 ) == nesn )
@@ -1148,7 +1171,8 @@ namespace {
                             break;
                         }
             }
-            ++exchanges;
+            if ( progress_possible )
+                ++exchanges;
         }
 
         // a pending procedure must not stop the peripheral from answering for longer than until its instant
@@ -1175,23 +1199,31 @@ namespace {
             // the radio hears the central: the anchor moves
             peripheral_received( e );
 
+            // the central sends the unacknowledged PDU again, otherwise the next one of its queue or an empty PDU
             bool proc_received_now = false;
-            if ( !txq.empty() && txq.front().proc_op >= 0 )
+            if ( !have_inflight && b.size != 0 )
             {
-                if ( b.size == 0 )
-                {
-                    txq.pop_front();  // the central gives the procedure up before it was sent
-                    rep.label( "procedure-not-started(busy)" );
-                }
+                if ( txq.empty() )
+                    inflight = TxPdu{ { 0x01, 0x00 }, 0, -1 };
                 else
                 {
-                    finalise_procedure( txq.front() );
-                    proc_received_now = true;
+                    inflight = txq.front();
+                    txq.pop_front();
+                }
+                have_inflight = true;
+                if ( inflight.proc_op >= 0 )
+                {
+                    proc_received_now = finalise_procedure( inflight );
                 }
             }
-            std::vector< u8 > pdu = txq.empty() ? std::vector< u8 >{ 0x01, 0x00 } : txq.front().bytes;
+            if ( !have_inflight && !txq.empty() && txq.front().proc_op >= 0 )
+            {
+                txq.pop_front();  // receive buffer full: the central gives the procedure up before it was sent
+                rep.label( "procedure-not-started(busy)" );
+            }
+            std::vector< u8 > pdu = have_inflight ? inflight.bytes : std::vector< u8 >{ 0x01, 0x00 };
 
-            const bool md = o.md || txq.size() > 1;
+            const bool md = o.md || !txq.empty();
             pdu[ 0 ] = static_cast< u8 >( ( pdu[ 0 ] & 3 ) | ( sn ? 8 : 0 ) | ( nesn ? 4 : 0 ) | ( md ? 0x10 : 0 ) );
 
             if ( proc.kind != PR_NONE && proc.kind != PR_INIT && !proc_received_now && pdu[ 1 ] != 0 && b.size != 0 )
@@ -1212,6 +1244,11 @@ namespace {
                 rep.label( "rx-buffer-full" );
             }
             const bool tx_not_empty = t.buffer[ 1 ] != 0;
+            // (receive buffer full and the peripheral repeats a PDU: both rings are full, acknowledgements are not seen any more --
+            //  a flow control matter of C15-C17, no progress can be expected here)
+            progress_possible = b.size != 0 || !tx_not_empty;
+            tr( "event ", e, " cnt ", sched_cnt, " ch ", r.evt_channel, " win ", r.evt_start, "..", r.evt_end, b.size ? "" : " RXFULL", " C->P ", verif::hex( pdu.data(), pdu.size() ), "  P->C ",
+                verif::hex( t.buffer, std::size_t( t.buffer[ 1 ] ) + 2 ), o.lost ? " (reply lost)" : "" );
             if ( !o.lost )
                 handle_reply( t );
             else
@@ -1240,6 +1277,7 @@ namespace {
             prev_abs = e;
             dev->end_event( ev );
             const Seen seen = drain_callbacks();
+            tr( "   after end_event: tx pending ", dev->pending_tx(), ", oldest unhandled received PDU ", dev->rx_head(), " bytes; room for a 29 byte PDU to transmit: ", dev->tx_room() );
 
             if ( first && monitors )
                 V_CHECK( established, "connect.not-established", "the first connection event took place, but ll_connection_established() was not called" );
@@ -1273,12 +1311,17 @@ namespace {
             return false;
         }
 
-        // supervision timeout that is certainly over when event e was missed
+        // a distance from the anchor at which the supervision timeout is certainly over when event e was missed (a connection
+        // update in between may restart the supervision timer at its instant, whose exact time the peripheral does not know)
         i64 latest_timeout( i64 e ) const
         {
             i64 to = params_at( e ).timeout;
             if ( proc.kind == PR_UPD && past_instant( e ) )
-                to = std::max( to, cur.timeout ) + ( proc.instant - anchor_abs ) * cur.interval;
+            {
+                i64 lo, hi;
+                nominal( proc.instant, lo, hi );
+                to = std::max( to, cur.timeout ) + hi;
+            }
             return to;
         }
 
@@ -1293,6 +1336,7 @@ namespace {
             ++misses_since_anchor;
             now_low = window_end;
             if ( proc.kind != PR_NONE && proc.kind != PR_INIT ) f_lost_pending = true;
+            tr( "event ", e, " cnt ", sched_cnt, " ch ", r.evt_channel, " win ", r.evt_start, "..", r.evt_end, " missed" );
             dev->timeout();
             const Seen seen = drain_callbacks();
             if ( r.evt_pending && r.evt_count != seen_evt_count )
@@ -1347,6 +1391,8 @@ namespace {
                 return;
             }
             rep.label( grant ? "disarm-granted" : "disarm-refused" );
+            tr( "notify: disarm ", grant ? "granted" : "refused", " at ", r.disarm_time, " us; now event ", sched_abs + static_cast< std::int16_t >( static_cast< std::uint16_t >( ( dev->counter() & 0xffff ) - sched_cnt ) ),
+                " win ", r.evt_start, "..", r.evt_end );
             if ( !grant )
             {
                 LL_CHECK( r.evt_pending && r.evt_count == seen_evt_count && ( dev->counter() & 0xffff ) == sched_cnt, "pullback.refused-but-moved", "disarm_connection_event() was refused but the planned event changed" );
@@ -1429,6 +1475,7 @@ namespace {
 
 int main( int argc, char** argv )
 {
+    using namespace c21_lltiming;
     verif::Harness< Case > h;
     h.gen       = gen_case;
     h.to_text   = to_text;
